@@ -637,3 +637,13 @@ def json_term():
     if not ok:
         return f"JSON({v!r}) renders {sql!r}: not one literal that decodes to the value"
     return None
+
+
+def column_default():
+    from . import Q
+    for v in ([1, 2, 3], ["a", "b"], []):
+        sql = str(Q.Column("c", "JSON", default=v))
+        tail = sql.split("DEFAULT ", 1)[1]
+        if _lex_literal(tail, "'", False) is None:
+            return f"Column('c', 'JSON', default={v!r}) renders {sql!r}: the default is not one literal"
+    return None
